@@ -21,12 +21,26 @@ def gen_validate_history(r, keys):
         ops.append("B int")
         g.push("B int", "B", 1, 1)
         ops = list(g.ops)
+    near = near_rep_ops(r, g) if r.random() < 0.6 else []
+    ops = list(g.ops)
+    for x in near:                     # the cast relation on the boundary cases, both directions
+        for y in near:
+            if x != y and r.random() < 0.5:
+                ops.append("X %d %d" % (x, y))
     for _ in range(r.randint(1, 2)):
+        nops = len(g.ops)
         mo, sig = meta_ops(r, g)
         ops += mo
+        if near and r.random() < 0.7:  # a pointer parameter of a boundary type, memories of the others
+            pslot = r.choice(near)
+            ops.append("KA 0 1 %d %s" % (pslot, hx("q")))
+            sig.append((True, pslot))
         ops.append("KR")
         for _ in range(r.randint(3, 9)):
-            ops.append(("V %d %s" % (r.random() < 0.93, " ".join(arg_list(r, g, sig)))).rstrip())
+            al = arg_list(r, g, sig)
+            if near and al and r.random() < 0.6:
+                al[-1] = "m%d" % r.choice(near)
+            ops.append(("V %d %s" % (r.random() < 0.93, " ".join(al))).rstrip())
         # start the next metadata from scratch
         if r.random() < 0.5:
             break
@@ -317,7 +331,8 @@ def _run_kernels(ck, hb, db, nfiles, nk, nargs, work):
     classes = {}
     for fi, (path, text, plan) in enumerate(plans):
         fo, co = fresh[fi], cached[fi]
-        where = "file %s:\n%s" % (os.path.basename(path), text)
+        where = "%s\nOKLFILE %s\n%s" % ("\n".join("## " + l for l in text.splitlines()), hx(text),
+                                          "\n".join("BUILD %s fresh" % k for k, _, _ in plan))
         for o in ora1[fi] + ora2[fi]:
             ck.oracle_violation(o, where, name="okl")
         fpos, cpos, mpos = 3, 3, len(memkeys)
@@ -330,7 +345,7 @@ def _run_kernels(ck, hb, db, nfiles, nk, nargs, work):
             fpos += 1
             cpos += 1
             nb += 1
-            rep = "%s\n## kernel %s\n%s" % (where, sig, "\n".join(hist_fresh[fi][:3]))
+            rep = "## kernel %s\n%s\nOKLFILE %s" % (sig, "\n".join("## " + l for l in text.splitlines()), hx(text))
             if not bf.startswith("built fresh ") or not bc.startswith("built cached "):
                 ck.problems.append(("tie", "kernel %s does not build: fresh=%s cached=%s" % (sig, bf[:300], bc[:300])))
                 # skip this kernel's lines
@@ -359,7 +374,7 @@ def _run_kernels(ck, hb, db, nfiles, nk, nargs, work):
                 ncompat += want == "ok"
                 classes[want.rstrip("0123456789")] = classes.get(want.rstrip("0123456789"), 0) + 1
                 line = ("RUN " + " ".join(a)).rstrip()
-                rtext = "%s\nBUILD %s fresh\n%s" % (rep, kname, line)
+                rtext = "%s\nEXPECT %s\nBUILD %s fresh\n%s" % (rep, want, kname, line)
                 if rf != rc:
                     ck.oracle_violation("fresh and cached kernels decide differently: %s [%s]: fresh %s, cached %s" % (sig, " ".join(a), rf, rc),
                                         rtext, name="okl")
@@ -390,6 +405,46 @@ def _run_kernels(ck, hb, db, nfiles, nk, nargs, work):
         ck.cov["samples"].append({"okl": text[:600], "fresh": fresh[0][3:9], "cached": cached[0][3:9]})
 
 
+def replay_okl(ck, lines):
+    """re-run one recorded end-to-end finding: OKLFILE <hex text> / EXPECT <decision> / BUILD k fresh / RUN args"""
+    hk = ck.harness("h_kernelargs")
+    if not hk:
+        return
+    work = os.path.join(BUILD, "tmp", "kargs-replay-%d" % os.getpid())
+    shutil.rmtree(work, ignore_errors=True)
+    os.makedirs(work)
+    try:
+        text = bytes.fromhex([l for l in lines if l.startswith("OKLFILE ")][0].split()[1]).decode()
+        want = ([l.split()[1] for l in lines if l.startswith("EXPECT ")] or [None])[0]
+        ops = [l for l in lines if l.startswith(("BUILD ", "RUN"))]
+        path = os.path.join(work, "f.okl")
+        open(path, "w").write(text)
+        open(os.path.join(work, "vec.h"), "w").write(VEC_H)
+        cc = os.path.join(work, "ccwrap.sh")
+        open(cc, "w").write(CCWRAP)
+        os.chmod(cc, os.stat(cc).st_mode | stat.S_IEXEC)
+        head = ["FILE " + hx(path), "FLAGS " + hx("-O0 -w -include " + os.path.join(work, "vec.h")), "COMPILER " + hx(cc)]
+        env = {"OCCA_CACHE_DIR": os.path.join(work, "occa_cache"), "ASAN_OPTIONS": "detect_leaks=0:abort_on_error=0:exitcode=66"}
+        ub = r"dtype/|dtype\.(cpp|hpp)|kernelMetadata|core/kernel\.cpp|vartype\.cpp"
+        f, o1, _ = ck.run_impl(hk, [head + ops], timeout=600, env=env, ubsan_is_violation=ub)
+        c, o2, _ = ck.run_impl(hk, [head + [l.replace(" fresh", " cached") for l in ops]], timeout=600, env=env, ubsan_is_violation=ub)
+        print("fresh :", f[0][3:])
+        print("cached:", c[0][3:])
+        for o in o1[0] + o2[0]:
+            ck.oracle_violation(o, "\n".join(lines), name="okl")
+        runs_f = [x for x, l in zip(f[0][3:], ops) if l.startswith("RUN")]
+        runs_c = [x for x, l in zip(c[0][3:], ops) if l.startswith("RUN")]
+        if runs_f != runs_c:
+            ck.oracle_violation("fresh and cached kernels decide differently: fresh %s, cached %s" % (runs_f, runs_c), "\n".join(lines), name="okl")
+        if want and any(x != want for x in runs_f + runs_c):
+            ck.oracle_violation("decision differs from the compatibility rule: %s / %s, expected %s" % (runs_f, runs_c, want), "\n".join(lines), name="okl")
+        metas = [x.split(" meta=")[-1] for x in f[0][3:] + c[0][3:] if x.startswith("built ")]
+        if len(set(metas)) > 1 or any("init=0" in x for x in f[0][3:] + c[0][3:]):
+            ck.oracle_violation("metadata of the cached kernel differs from the fresh one (or is not initialized)", "\n".join(lines), name="okl")
+    finally:
+        shutil.rmtree(work, ignore_errors=True)
+
+
 def main(argv):
     ck = Check("C10", argv)
     ck.rule = ("(1) histories that build random dtype trees, kernel metadata over them (0-4 arguments, const/pointer flags, metadata "
@@ -409,20 +464,23 @@ def main(argv):
     keys = builtin_keys()
     if ck.replay:
         hs = [read_replay(ck.replay)]
-        if hs[0] and hs[0][0].startswith(("FILE", "file")):
-            print("replay of an OKL finding: see the file text inside the replay; re-run the check to reproduce")
-            sys.exit(1)
+        if any(l.startswith("OKLFILE ") for l in hs[0]):
+            replay_okl(ck, hs[0])
+            ck.finish(META["level_text"])
     else:
-        n = 250 if ck.tier == "quick" else 8000
+        n = 250 if ck.tier == "quick" else 3000
         hs = CORPUS + [gen_validate_history(ck.rng, keys) for _ in range(n)]
+    parts = os.environ.get("VERIF_C10_PARTS", "validate,kernels").split(",")     # debugging aid; default: everything
+    if "validate" not in parts:
+        hs = hs[:1]
     ck.correspond(hb, db, hs, label="validate", nontrivial=lambda h, impl: any(o.split(" ")[0] not in ("bad-op", "err", "MISSING") for o in impl),
                   ubsan_is_violation=r"dtype/|dtype\.(cpp|hpp)|kernelMetadata|core/kernel\.cpp")
     ck.cov["counters"]["op_V"] = sum(1 for h in hs for l in h if l.startswith("V "))
-    if not ck.replay:
+    if not ck.replay and "kernels" in parts:
         hk = ck.harness("h_kernelargs")
         if hk:
             if ck.tier == "quick":
                 run_kernels(ck, hk, db, nfiles=3, nk=10, nargs=5)
             else:
-                run_kernels(ck, hk, db, nfiles=40, nk=30, nargs=25)
+                run_kernels(ck, hk, db, nfiles=12, nk=20, nargs=12)
     ck.finish(META["level_text"])
